@@ -354,7 +354,8 @@ def check_pattern_sharing(res):
             res.violation('h18:pattern-sharing:' + pat, 'statements execute', {'pattern': pat, 'first': first}, f'{type(e).__name__}: {e}', 'rows')
             continue
         # account names are capitalised: a lower-case pattern matches only where case is ignored
-        ok = got['has_account'][0][0] > 0 and got['grep'] == [(None,)] and got['subst'] == [(True,)]
+        nacc = got['has_account'][0][0] if got['has_account'] else 0       # count(*) over no row returns no row
+        ok = nacc > 0 and got['grep'] == [(None,)] and got['subst'] == [(True,)]
         if not ok:
             res.violation('h18:pattern-sharing:' + pat, 'has_account matches ignoring case; grep / subst with the same pattern text stay case-sensitive (and vice versa), in any order of evaluation',
                           {'pattern': pat, 'evaluated_first': first}, {k: v[:2] for k, v in got.items()}, {'has_account': '> 0', 'grep': [(None,)], 'subst': [(True,)]})
